@@ -15,23 +15,8 @@ import (
 
 func ruleC11Clean(p *Prog, a *Anchors, r *Report) {
 	r.Begin("R-C11-CLEAN", "a loader that opens names through an fs.FS / http.FileSystem cleans every name it resolves (Abs returns the result of Join/Clean) and joins its base directory with a path function: an existing file is not reported missing because of `//`, `..` or a leading slash", 2)
-	cleans := func(v ssa.Value) bool {
-		for d := 0; d < 4; d++ {
-			c, ok := v.(*ssa.Call)
-			if !ok || c.Common().StaticCallee() == nil {
-				return false
-			}
-			switch p.extName(c.Common().StaticCallee()) {
-			case "path.Join", "path.Clean", "path/filepath.Join", "path/filepath.Clean":
-				return true
-			case "strings.TrimPrefix", "strings.TrimLeft", "path/filepath.ToSlash":
-				v = c.Common().Args[0]
-				continue
-			}
-			return false
-		}
-		return false
-	}
+	cleans := func(v ssa.Value) bool { return cleansValue(p, v, 0) }
+	_ = cleans
 	n := 0
 	// loaders whose Get invokes Open on an interface
 	for _, get := range p.inPkgFuncsSorted(p.allFuncSet()) {
@@ -165,4 +150,33 @@ func ruleC11LazyOnce(p *Prog, a *Anchors, r *Report) {
 	if n == 0 {
 		r.Trivial("none", "-", "no node loads a template while it executes")
 	}
+}
+
+// cleansValue: v went through a cleaning path function (Join/Clean), possibly trimmed afterwards, or is the result
+// of a package helper all of whose results are.
+func cleansValue(p *Prog, v ssa.Value, d int) bool {
+	for ; d < 5; d++ {
+		c, ok := v.(*ssa.Call)
+		if !ok || c.Common().StaticCallee() == nil {
+			return false
+		}
+		if callee := c.Common().StaticCallee(); p.InPkg(callee) && callee.Blocks != nil {
+			all := len(returnsOf(callee)) > 0
+			for _, ret := range returnsOf(callee) {
+				if !cleansValue(p, ret.Results[0], d+1) {
+					all = false
+				}
+			}
+			return all
+		}
+		switch p.extName(c.Common().StaticCallee()) {
+		case "path.Join", "path.Clean", "path/filepath.Join", "path/filepath.Clean":
+			return true
+		case "strings.TrimPrefix", "strings.TrimLeft", "path/filepath.ToSlash":
+			v = c.Common().Args[0]
+			continue
+		}
+		return false
+	}
+	return false
 }
